@@ -136,9 +136,21 @@ def run(ctx):
             #  attribute but the rule store keeps the old one until the next replacing set_rules; the
             #  statement does not say which of the two "is configured" then)
             for _ in range(rng.randint(1, 2)):
-                sess.enforce({'by': 'name', 'name': rng.choice(['n1', 'n2', 'd', 'zz', 'default'])}, {}, {'roles': rng.choice([[], ['r']])})
+                sess.enforce({'by': 'name', 'name': rng.choice(['n1', 'n2', 'd', 'zz', 'default', 'yy'])}, {}, {'roles': rng.choice([[], ['r']])})
         sess.close()
         sessions.append(sess)
+    # the rule the default name points at is redefined in place (merge) between two look-ups of unknown names
+    for dflt, dname in ((('name', 'd'), 'd'), (('opt', 'd'), 'd'), (None, 'default')):
+        for first, second in ((ev.T, ev.F), (ev.F, ev.T), (R, ev.Not(R))):
+            for fb in (False, True):
+                sess = ec.Session([(dname, first), ('n1', ev.rule('yy'))], dflt, via='rules_obj', file_backed=fb)
+                for name in ('yy', 'n1', 'yy'):
+                    sess.enforce({'by': 'name', 'name': name}, {}, {'roles': ['r']})
+                sess.set_rules([(dname, second)], overwrite=False, how=rng.choice(['rules_obj', 'dict']))
+                for name in ('yy', 'n1', dname, 'yy'):
+                    sess.enforce({'by': 'name', 'name': name}, {}, {'roles': rng.choice([[], ['r']])})
+                sess.close()
+                sessions.append(sess)
     for si, evi in ec.judge_sessions(ctx, sessions):
         ctx.violation('session:decision-ignores-current-rule-store', 'after the rule store was changed through the API a decision is not the one the current store gives',
                       {'history': sessions[si].log[:40], 'failing_event_index': evi, 'default_rule': repr(sessions[si].dflt)})
